@@ -154,13 +154,20 @@ def check(run):
                 problems.append("constant term C = %r, upward-shift rule gives %r (end values %r, %r)" % (coefs[6], want_c, sy, ey))
         # C2 joins: one-sided limits of the spline part against the end potentials
         eps = 1e-9
+        # the floor of each comparison is the size of that quantity over the spline as a whole (the larger of its two end values / slopes /
+        # curvatures): the six coefficients come out of ONE linear solve, so its rounding error at either end is relative to the larger end - an end potential that is
+        # exactly zero at its join (as.constant 0, as.zero) has slope 0 there and the spline's slope is 6e-6 when the other end has slope 2800 (found by the thorough
+        # tier on the clean tree; section 6.1).  With the 2e-6 of `rel` the joins are held to 2e-6 of the spline's own scale (the linear solve loses up to eight digits when an end value is large and negative: conditioning, which the property excludes).
+        whole = max(abs(dp.v), abs(apt.v)) + 1.0
+        whole1 = max(abs(p_.deriv) + abs(p_.v) / x_ for p_, x_ in ((dp, c["rd"]), (apt, c["ra"])))
+        whole2 = max(abs(p_.deriv2) + abs(p_.deriv) / x_ + abs(p_.v) / x_ ** 2 for p_, x_ in ((dp, c["rd"]), (apt, c["ra"])))
         for (x, pt, nm) in ((c["rd"], dp, "detach"), (c["ra"], apt, "attach")):
             scale_v = abs(pt.v) + 1.0
-            if not rel(sp(x), pt.v, scale_v):
+            if not rel(sp(x), pt.v, max(scale_v, whole)):
                 problems.append("value jump at %s: spline %r, potential %r" % (nm, sp(x), pt.v))
-            if not rel(sp.deriv(x), pt.deriv, abs(pt.v) / x):
+            if not rel(sp.deriv(x), pt.deriv, max(abs(pt.v) / x, whole1)):
                 problems.append("slope jump at %s: spline %r, potential %r" % (nm, sp.deriv(x), pt.deriv))
-            if not rel(sp.deriv2(x), pt.deriv2, abs(pt.deriv) / x + abs(pt.v) / x ** 2):
+            if not rel(sp.deriv2(x), pt.deriv2, max(abs(pt.deriv) / x + abs(pt.v) / x ** 2, whole2)):
                 problems.append("curvature jump at %s: spline %r, potential %r" % (nm, sp.deriv2(x), pt.deriv2))
         if c["kind"] == "buck4":
             rm = c["rm"]
@@ -234,9 +241,17 @@ def check(run):
             elif what == "rm":
                 v["rm"] = round(v["rm"] + rng.choice([-0.05, 0.07]), 3)
             elif what == "end":
-                q = list(v["end"][1]); q[-1] = q[-1] * 1.25 + 0.5; v["end"] = (v["end"][0], q)
+                q = list(v["end"][1])
+                if not q:
+                    continue
+                q[-1] = q[-1] * 1.25 + 0.5
+                v["end"] = (v["end"][0], q)
             else:
-                q = list(v["start"][1]); q[0] = q[0] * 1.1 + 1.0; v["start"] = (v["start"][0], q)
+                q = list(v["start"][1])
+                if not q:
+                    continue
+                q[0] = q[0] * 1.1 + 1.0
+                v["start"] = (v["start"][0], q)
             if v["rd"] < v["rm"] < v["ra"] and v["ra"] - v["rd"] > 0.3:
                 variants.append(v)
         defs = []
